@@ -796,6 +796,8 @@ def generate():
     out.append('/-- get_sdr_data_helper: header length, max_req_len, its decrement, retry, shrink code -/')
     out.append('def sdrCfg : SdrCfg := ⟨%d, %d, %d, %d, %d⟩' % (
         sdr['hdrLen'], sdr['maxReqLen'], sdr['reqLenDec'], sdr['dataRetry'], sdr['cantReturn']))
+    out.append('/-- get_sdr_chunk_helper: the code that renews the reservation, the two that just retry -/')
+    out.append('def sdr_chunkCodes : ChunkCodes := ⟨%d, %d, %d⟩' % (sdr['chunkRenew'], sdr['chunkRetry1'], sdr['chunkRetry2']))
     out.append('/-- default retry of get_sdr_chunk_helper and of clear_repository_helper; first / END id of the SDR listings -/')
     out.append('def sdr_chunkRetry : Nat := %d' % sdr['chunkRetryDefault'])
     out.append('def clear_retry : Nat := %d' % sdr['clearRetryDefault'])
@@ -808,7 +810,8 @@ def generate():
 
 
 SDR_DEFAULTS = {'hdrLen': 5, 'maxReqLen': 20, 'reqLenDec': 4, 'dataRetry': 20, 'cantReturn': 0xCA,
-                'chunkRetryDefault': 5, 'clearRetryDefault': 5, 'repoListStart': 0, 'lastId': 0xFFFF}
+                'chunkRetryDefault': 5, 'clearRetryDefault': 5, 'repoListStart': 0, 'lastId': 0xFFFF,
+                'chunkRenew': 0xC5, 'chunkRetry1': 0xC3, 'chunkRetry2': 0xCE}
 LOOP_CONST_NOTES = []
 
 
